@@ -1,2 +1,13 @@
 import BnpVerif.Props.C12
 #print axioms C12.gen_flags
+#print axioms C12.zip_second_unsound
+#print axioms C12.graph_single_stream_unsound
+#print axioms C12.underscore_unsound
+#print axioms C12.zip_fixed_witness
+#print axioms C12.groups_chunking
+#print axioms C12.sync_complete
+#print axioms C12.sync_complete_any_consumer
+#print axioms C12.synched_complete
+#print axioms C12.synched_complete_any_consumer
+#print axioms C12.left_join_complete
+#print axioms C12.zip_columns_complete
